@@ -115,6 +115,8 @@ def scenarios(tier, rng):
     # the publishing os.replace itself fails (EACCES: a reader holds the file on some platforms; EIO)
     for errn in ("EACCES", "EIO"):
         out.append(dict(_cache_sc(rng, 4, 3, 1, 40), fault_at_replace=errn))
+    out.append(_doc_sc(rng, "jobdoc", "small", "jobclear"))
+    out.append(_doc_sc(rng, "jobdoc", "mid", "jobreset"))
     out.append(dict(_doc_sc(rng, "jobdoc", "small", "setitem"), mt=False))
     out.append(dict(_doc_sc(rng, "projdoc", "small", "update"), mt=False))
     out.append(dict(_doc_sc(rng, "jobdoc", "mid", "assign"), mt=False))
@@ -213,7 +215,9 @@ def apply_op(doc, op, rng_seed):
         doc.update({"k_new": val, "a": "replaced", "more": [1, [2, [3]]]})
     elif op == "delitem":
         del doc["a"]
-    elif op == "clear":
+    elif op in ("clear", "jobclear", "jobreset"):
+        # "jobclear" / "jobreset" = Job.clear() / Job.reset() through a FRESH job handle (see build()); for the
+        # document both mean: it becomes empty
         doc.clear()
     elif op in ("reset", "assign"):
         # "assign" = `job.document = new` / `project.document = new` (the owner's setter, see build());
@@ -294,6 +298,12 @@ def build(sc, d, mutant=None):
                 # the documented switch that turns the dependency's thread-safety layer off: the documents must
                 # still be replaced atomically (signac asks for write_concern=True)
                 signac.JSONDict.disable_multithreading()
+        if dsc["op"] in ("jobclear", "jobreset") and owner is not None:
+            def jobclear():
+                no_threads()
+                fresh_handle = signac.Project(d).open_job(id=owner.id)   # no document object yet
+                (fresh_handle.clear if dsc["op"] == "jobclear" else fresh_handle.reset)()
+            return jobclear
         if dsc["op"] == "assign" and owner is not None:
             def assign():
                 no_threads()
